@@ -502,24 +502,36 @@ class CInterp:
     def do_for(self, st: X):
         init, cond, inc, body = st.a
         self.run(init)
-        if cond is None or cond.k != "cmp" or cond.a[0] not in ("<", "<="):
-            self.err(st, f"unsupported loop condition `{pp(cond) if cond else None}`")
-        if cond.a[1].k != "name":
-            self.err(st, "loop counter is not a plain variable")
-        v = cond.a[1].a[0]
-        if not (len(inc) == 1 and inc[0].k == "aug" and inc[0].a[0] == "+" and
-                pp(inc[0].a[1]) == v and pp(inc[0].a[2]) == "1"):
-            self.err(st, f"loop `{v}` is not advanced by exactly one per iteration")
-        start = self.env.get(v)
-        if start is None or start[0] != "int":
-            self.err(st, f"loop counter `{v}` has no integer start value")
-        a = start[1]
-        bound = self.ev(cond.a[2])
-        if bound[0] != "int":
-            self.err(st, f"loop bound `{pp(cond.a[2])}` is not an integer expression")
-        b = bound[1]
-        if cond.a[0] == "<=":
-            b = b + Poly.const(1)
+        countdown = cond is not None and cond.k == "cmp" and cond.a[0] == ">" and \
+            cond.a[1].k == "caug" and cond.a[1].a[0] == "-" and \
+            cond.a[1].a[1].k == "name" and pp(cond.a[1].a[2]) == "1" and \
+            pp(cond.a[2]) == "0" and not inc
+        if countdown:
+            # for (v = n; v-- > 0; ): the body sees v = n-1, ..., 0
+            v = cond.a[1].a[1].a[0]
+            start = self.env.get(v)
+            if start is None or start[0] != "int":
+                self.err(st, f"loop counter `{v}` has no integer start value")
+            a, b = Poly(), start[1]
+        else:
+            if cond is None or cond.k != "cmp" or cond.a[0] not in ("<", "<="):
+                self.err(st, f"unsupported loop condition `{pp(cond) if cond else None}`")
+            if cond.a[1].k != "name":
+                self.err(st, "loop counter is not a plain variable")
+            v = cond.a[1].a[0]
+            if not (len(inc) == 1 and inc[0].k == "aug" and inc[0].a[0] == "+" and
+                    pp(inc[0].a[1]) == v and pp(inc[0].a[2]) == "1"):
+                self.err(st, f"loop `{v}` is not advanced by exactly one per iteration")
+            start = self.env.get(v)
+            if start is None or start[0] != "int":
+                self.err(st, f"loop counter `{v}` has no integer start value")
+            a = start[1]
+            bound = self.ev(cond.a[2])
+            if bound[0] != "int":
+                self.err(st, f"loop bound `{pp(cond.a[2])}` is not an integer expression")
+            b = bound[1]
+            if cond.a[0] == "<=":
+                b = b + Poly.const(1)
         # the counter must not be modified in the body
         assigned = self.assigned_names(body)
         if v in assigned:
